@@ -14,7 +14,7 @@ INFRA = {"harness/core.py", "harness/bridge.py", "harness/canon.py", "harness/co
 OWN = sys.argv[2:] or None      # optional: only take files whose path mentions one of these substrings (e.g. C09 C10 Genotype SelLimit)
 for line in out.splitlines():
     st, path = line[:2], line[3:]
-    if path.startswith("evidence/") or "__pycache__" in path or path.startswith("lean/.lake"):
+    if path.startswith(("evidence/", "seeded/", "tools/", "lean/.lake")) or "__pycache__" in path:
         continue
     if st.strip() == "??" or st.strip() == "A":
         os.makedirs(os.path.dirname(os.path.join(dst, path)) or dst, exist_ok=True)
